@@ -20,7 +20,7 @@ def _stamps(rng):
             b"\x0f\x00\xe8\x03\xff\xff\xff\x7f", b"Chapter 1 ", b"\x2f\x00\x06\x00\x01\x00\x01\x00\x01\x00"]
 
 ZIP_OPS = ["xml_truncate", "xml_unclose", "xml_numbers", "xml_entity", "xml_deep", "xml_garbage", "member_drop", "member_empty",
-           "member_swap", "cd_forge", "xml_attr_drop", "xml_dup_children", "nonutf8", "stored_overlong", "xml_huge_count", "xml_lengths"]
+           "member_swap", "cd_forge", "xml_attr_drop", "xml_dup_children", "nonutf8", "stored_overlong", "xml_huge_count", "xml_lengths", "member_names_ctrl", "bomb_member_named", "xml_href_climb"]
 TEXT_OPS = ["deep_braces", "deep_tags", "ctrl_numbers", "unbalanced", "long_line", "nul_bytes", "random_ctrl"]
 
 EXTREMES = [b"0", b"-1", b"-6", b"-20", b"1", b"255", b"65535", b"65536", b"2147483647", b"2147483648", b"4294967295", b"4294967296", b"9999999999999999999", b"-2147483649", b"1e309", b"NaN", b"", b"9" * 400]
@@ -162,6 +162,40 @@ def zip_mutate(data: bytes, op: str, rng: random.Random) -> bytes:
             raw[p + 20:p + 24] = struct.pack("<I", size)
             raw[p + 24:p + 28] = struct.pack("<I", size)
         return bytes(raw)
+    elif op == "member_names_ctrl":
+        # member names are free-form byte strings: line breaks, escape sequences and blanks in them are legal (whatever quotes a name
+        # in a message inherits them)
+        for _ in range(rng.choice([1, 2, 3])):
+            k = rng.randrange(len(members))
+            zi_, d_ = members[k]
+            if zi_.filename in ("mimetype", "[Content_Types].xml"):
+                continue
+            cut = rng.randrange(len(zi_.filename) + 1)
+            nz = zipfile.ZipInfo(zi_.filename[:cut] + rng.choice(["\n", "\r\n", "\nsharepoint2text: ", "\x1b[2J", "\t", " \n "]) + zi_.filename[cut:], date_time=zi_.date_time)
+            nz.external_attr = zi_.external_attr
+            members[k] = (nz, d_)
+    elif op == "bomb_member_named":
+        # one more member that trips the bomb guard by itself (megabytes of zeros), under a name with a line break in it
+        name = rng.choice(["media/big\nsecond line.bin", "Pictures/a\r\nb.png", "x\n", "word/media/image\n1.png"])
+        members.append((zipfile.ZipInfo(name, date_time=(2024, 1, 2, 3, 4, 6)), bytes(rng.choice([1, 2, 4]) << 20)))
+    elif op == "xml_href_climb":
+        # references between parts (relationship targets, manifest hrefs, xlink:href, src) that climb out of the container, are absolute,
+        # empty or very long: resolving them must end, whatever they resolve to
+        pat = re.compile(rb'((?:Target|href|xlink:href|full-path|src)=")([^"]*)(")')
+        for i in xml_idx:
+            zi_, d_ = members[i]
+            hits = list(pat.finditer(d_))
+            if not hits:
+                continue
+            chosen = {m.start() for m in rng.sample(hits, min(len(hits), rng.choice([1, 2, 5])))}
+
+            def repl(m):
+                if m.start() not in chosen:
+                    return m.group(0)
+                v = m.group(2)
+                nv = rng.choice([b"../" + v, b"../../" + v, b"../../../x/" + v, b"/" + v, b"/../" + v, b"./" + v, b"//" + v, b"", b"../" * 60 + v, v + b"/..", b"a/../../" + v, b"..", b"."])
+                return m.group(1) + nv + m.group(3)
+            members[i] = (zi_, pat.sub(repl, d_))
     elif op == "xml_lengths":
         # every length / extent in the part ("2.5cm", "914400" EMU in cx/cy, "12pt") takes one extreme value: sizes and positions that
         # no arithmetic on them can represent (hundreds of digits), zero, negative
